@@ -520,6 +520,36 @@ pub fn generate_c04(thorough: bool, seed: u64, em: &mut Emitter) {
                 em.case("decode", c2);
             }
         }
+        // (a4) an expired credential: with expiry validation on, holder and verifier reject the authentic token (expired) and,
+        // all the more, every forgery of it - an expired forged token is not "merely expired"
+        {
+            let with_exp = json!({"alg": alg, "aud": null, "iss": null, "leeway": 0, "required": null, "sub": null,
+                                  "validate_aud": true, "validate_exp": true, "validate_nbf": false});
+            let mut payload = sample_payload();
+            payload["exp"] = json!(now() - 1000);
+            let expired = sdjwt::encode(&Header::new(algorithm(alg)), &payload, &signing_key(alg)).expect("sign");
+            let mut c = decode_case(&expired, &with_exp, &matching_key_spec(alg), alg, true, "reject", "reject", true);
+            c["tag"] = json!("expired_authentic");
+            em.case("decode", c);
+            let bytes = expired.as_bytes();
+            for _ in 0..6 {
+                let p = r.below(bytes.len());
+                if bytes[p] == b'.' { continue; }
+                let mut b = bytes.to_vec();
+                b[p] = if b[p] == b'A' { b'B' } else { b'A' };
+                if let Ok(m) = String::from_utf8(b) {
+                    let mut c = decode_case(&m, &with_exp, &matching_key_spec(alg), alg, false, "reject", "reject", true);
+                    c["tag"] = json!("expired_forged");
+                    em.case("decode", c);
+                }
+            }
+            for kalg in ["HS256", "ES256", "RS256"] {
+                if matching_key_spec(kalg) == matching_key_spec(alg) { continue; }
+                let mut c = decode_case(&expired, &with_exp, &matching_key_spec(kalg), alg, false, "reject", "reject", true);
+                c["tag"] = json!("expired_wrong_key");
+                em.case("decode", c);
+            }
+        }
         // (b) every key with every configured algorithm
         for kalg in keys::ALL_ALGS {
             for palg in keys::ALL_ALGS {
@@ -671,6 +701,7 @@ pub fn generate_c16(thorough: bool, seed: u64, em: &mut Emitter) {
         // one issuer in three was configured with another header first (every member set): header() replaces the
         // header, nothing of the earlier one may survive into the token
         let replaced = r.chance(1, 3);
+        let case_only = !replaced && misfit.is_none() && r.chance(1, 3);
         let token = catch_unwind(AssertUnwindSafe(|| {
             let mut iss = sdjwt::Issuer::new(json!({"a": 1, "b": "two"})).ok()?;
             iss.disclosable("/a");
@@ -686,6 +717,17 @@ pub fn generate_c16(thorough: bool, seed: u64, em: &mut Emitter) {
                 first.x5t_s256 = Some("first-x5t-s256".to_string());
                 first.crit = Some(vec!["first".to_string()]);
                 iss.header(first);
+            }
+            if case_only {
+                // the same issuer object issued once under a header that differs from the final one only in the letter case
+                // of typ / cty, then was given the final header
+                let mut first = h.clone();
+                first.typ = h.typ.as_ref().map(|t| t.to_uppercase());
+                first.cty = h.cty.as_ref().map(|t| t.to_uppercase());
+                if first.typ == h.typ { first.typ = h.typ.as_ref().map(|t| t.to_lowercase()); }
+                if first.cty == h.cty { first.cty = h.cty.as_ref().map(|t| t.to_lowercase()); }
+                iss.header(first);
+                let _ = iss.encode(&signing_key(&alg));
             }
             iss.header(h.clone());
             iss.encode(&signing_key(misfit.unwrap_or(&alg))).ok()
@@ -715,6 +757,9 @@ pub fn generate_c16(thorough: bool, seed: u64, em: &mut Emitter) {
         c["expect_header"] = Value::Object(expect);
         if replaced {
             c["tag"] = json!("header_replaced");
+        }
+        if case_only {
+            c["tag"] = json!("header_replaced_after_encode_case_only");
         }
         em.case("decode", c);
     }
